@@ -124,14 +124,17 @@ def run(prog, rep, tier):
             out = stored_value(ev, nxt, X, i)
         except Inconclusive as e:
             rep.unk("CASES.anm", fwhere(f, li["node"]), "outcome table left the recognised idioms: %s" % e.why)
-            return
+            bad = None
+            break
         exp = oracle(d, s, z)
         table["do=%d shift=%d noise=%d" % (d, s, z)] = dict(out)
         if exp is not None and out != exp:
             bad.append("do=%s shift=%s noise=%s: X[:, i] <- %s, expected %s" % (d, s, z, dict(out), dict(exp)))
         bad += ["do=%s shift=%s noise=%s: %s" % (d, s, z, p) for p in ev.problems]
     rep.tables["anm_outcomes"] = table
-    if bad:
+    if bad is None:
+        pass
+    elif bad:
         rep.bad("CASES.anm", fwhere(f, li["node"]), bad[0], detail=bad)
     else:
         rep.ok("CASES.anm", fwhere(f, li["node"]), "8 valuations: do alone | assignment(parents) + noise (+ shift | new noise); each draw once, with n")
@@ -177,6 +180,7 @@ def run(prog, rep, tier):
     if obj is not None and "ordering" in obj.attrs:
         rep.check("PAT.ordering", PT.lvl_of(obj.attrs["ordering"]) <= PT.PAT, fwhere(fc), "the generation order is pattern-only",
                   "the generation order depends on weight values (negative or cancelling weights reorder or drop variables)")
+    pattern_method(prog, rep, AN + "sample", ["A"])
     rep.exhaustive = True      # the finite tables (pairs / valuations) are enumerated completely
     rep.require_count("CASES", 1)
     rep.require_count("ORDER", 3)
